@@ -15,6 +15,8 @@ Lemma sh_rev_oracle : perm_oracle sh_rev.
 Proof. exact sh_rev_perm. Qed.
 
 Section S.
+Variable P : lparams.
+Hypothesis POK : params_ok P = true.
 Variable sh : N -> list name -> list name.
 Hypothesis O : perm_oracle sh.
 Variable g : graph.
@@ -83,19 +85,19 @@ Proof.
 Qed.
 
 Lemma s_push : forall m, new_map sh g = MOk m ->
-  exists L, push_tight m = POk L /\
+  exists L, push_tight P m = POk L /\
     (forall u v, edge g u v -> lget L u < lget L v) /\
     (forall v, In v (keys g) -> lget L v < m_nlayer m).
 Proof.
   intros m E. pose proof (new_map_spec sh O g W) as S. rewrite E in S.
-  destruct S as [Eg A]. destruct (push_tight_ok m A) as [L [EL PI]].
+  destruct S as [Eg A]. destruct (push_tight_ok P m A) as [L [EL PI]].
   exists L. split; [assumption|]. rewrite <- Eg. split.
   - apply (pinv_edge m A L PI).
   - apply (p_bound m L PI).
 Qed.
 
 Lemma s_layout : forall m, new_map sh g = MOk m ->
-  exists v, layout_map m = VwOk v /\
+  exists v, layout_map P m = VwOk v /\
     v_width v = m_nlayer m /\
     map fst (v_nodes v) = keys g /\
     (forall k, In k (keys g) -> vx v k < v_width v /\ (0 <= vy v k < v_height v)%Z) /\
@@ -103,7 +105,7 @@ Lemma s_layout : forall m, new_map sh g = MOk m ->
     (forall u w, edge g u w -> vx v u < vx v w).
 Proof.
   intros m E. pose proof (new_map_spec sh O g W) as S. rewrite E in S.
-  destruct S as [Eg A]. rewrite <- Eg. apply layout_map_ok. assumption.
+  destruct S as [Eg A]. rewrite <- Eg. apply layout_map_ok; assumption.
 Qed.
 
 Lemma s_reverse_twice :
